@@ -7,26 +7,43 @@ Import ListNotations.
 Lemma alter_loop_spec arms : forall acc b,
   snd (alter_loop arms acc b) = b && forallb arm_reversible arms /\
   (snd (alter_loop arms acc b) = true ->
-   fst (alter_loop arms acc b) = acc ++ filter arm_has_inverse arms).
+   fst (alter_loop arms acc b) = acc ++ map inverse_arm (filter arm_has_inverse arms)).
 Proof.
-  induction arms as [|a arms IH]; intros acc b; simpl.
+  induction arms as [|a arms IH]; intros acc b; cbn [alter_loop forallb filter map].
   - split; [now rewrite andb_true_r|intros _; now rewrite app_nil_r].
-  - unfold arm_reversible, arm_has_inverse. destruct (a_kind a); simpl.
-    + destruct (IH (acc ++ [a]) b) as [H1 H2]. split; [exact H1|]. intros H. rewrite (H2 H), <- app_assoc. reflexivity.
-    + destruct (IH (acc ++ [a]) b) as [H1 H2]. split; [exact H1|]. intros H. rewrite (H2 H), <- app_assoc. reflexivity.
-    + destruct b; simpl.
-      * destruct (IH (acc ++ [a]) true) as [H1 H2]. split; [exact H1|]. intros H. rewrite (H2 H), <- app_assoc. reflexivity.
-      * destruct (IH acc false) as [H1 H2]. split; [exact H1|]. intros H. rewrite H1 in H. discriminate.
-    + destruct b; simpl; destruct (IH acc false) as [H1 H2]; (split; [exact H1|]); intros H; rewrite H1 in H; discriminate.
-    + destruct (IH (acc ++ [a]) false) as [H1 H2]. split; [now rewrite H1, andb_false_r|].
-      intros H. rewrite H1 in H. discriminate.
-    + destruct (IH acc false) as [H1 H2]. split; [now rewrite H1, andb_false_r|].
-      intros H. rewrite H1 in H. discriminate.
+  - assert (Step : forall x b', b' = b && arm_reversible a ->
+              (b' = true -> arm_has_inverse a = true /\ x = inverse_arm a) ->
+              snd (alter_loop arms (acc ++ [x]) b') = b && (arm_reversible a && forallb arm_reversible arms) /\
+              (snd (alter_loop arms (acc ++ [x]) b') = true ->
+               fst (alter_loop arms (acc ++ [x]) b') =
+               acc ++ map inverse_arm (if arm_has_inverse a then a :: filter arm_has_inverse arms else filter arm_has_inverse arms))).
+    { intros x b' Eb Hx. destruct (IH (acc ++ [x]) b') as [H1 H2]. split; [now rewrite H1, Eb, andb_assoc|].
+      intros H. rewrite (H2 H). rewrite H1 in H. apply andb_true_iff in H as [Hb' _].
+      destruct (Hx Hb') as [Hi ->]. rewrite Hi. cbn [map]. now rewrite <- app_assoc. }
+    assert (Skip : forall b', b' = b && arm_reversible a -> (b' = true -> arm_has_inverse a = false) ->
+              snd (alter_loop arms acc b') = b && (arm_reversible a && forallb arm_reversible arms) /\
+              (snd (alter_loop arms acc b') = true ->
+               fst (alter_loop arms acc b') =
+               acc ++ map inverse_arm (if arm_has_inverse a then a :: filter arm_has_inverse arms else filter arm_has_inverse arms))).
+    { intros b' Eb Hx. destruct (IH acc b') as [H1 H2]. split; [now rewrite H1, Eb, andb_assoc|].
+      intros H. rewrite (H2 H). rewrite H1 in H. apply andb_true_iff in H as [Hb' _]. now rewrite (Hx Hb'). }
+    unfold arm_reversible, arm_has_inverse, inverse_arm in *. destruct (a_kind a) as [| | | | |k|] eqn:Ek.
+    + apply Step; [now rewrite andb_true_r|intros _; now split].
+    + apply Step; [now rewrite andb_true_r|intros _; now split].
+    + destruct b; cbn [andb].
+      * apply (Step a true); [reflexivity|intros _; now split].
+      * apply (Skip false); [reflexivity|discriminate].
+    + destruct b; cbn [andb]; apply (Skip false); try reflexivity; discriminate.
+    + apply (Step a false); [now rewrite andb_false_r|discriminate].
+    + apply Step.
+      * destruct (k_generated k); [now rewrite andb_false_r|now rewrite andb_true_r].
+      * intros Hb. split; [reflexivity|reflexivity].
+    + apply (Skip false); [now rewrite andb_false_r|discriminate].
 Qed.
 
 Lemma alter_reverse_spec arms :
   alter_reverse arms =
-  if forallb arm_reversible arms then Some (rev (filter arm_has_inverse arms)) else None.
+  if forallb arm_reversible arms then Some (rev (map inverse_arm (filter arm_has_inverse arms))) else None.
 Proof.
   unfold alter_reverse. destruct (alter_loop_spec arms [] true) as [H1 H2].
   destruct (alter_loop arms [] true) as [r b] eqn:E. simpl in *. subst b.
@@ -44,12 +61,12 @@ Qed.
 
 Lemma alter_mysql_lemma arms :
   alterTable_mysql arms =
-  if forallb arm_reversible arms then Some (rev (filter arm_has_inverse arms)) else None.
+  if forallb arm_reversible arms then Some (rev (map inverse_arm (filter arm_has_inverse arms))) else None.
 Proof. apply alter_reverse_spec. Qed.
 
 Lemma alter_postgres_lemma arms :
   alterTable_postgres arms =
-  if forallb arm_reversible arms then Some (rev (filter arm_has_inverse (pg_sorted arms))) else None.
+  if forallb arm_reversible arms then Some (rev (map inverse_arm (filter arm_has_inverse (pg_sorted arms)))) else None.
 Proof.
   unfold alterTable_postgres. rewrite alter_reverse_spec. unfold pg_sorted.
   now rewrite forallb_filter_perm.
@@ -62,11 +79,15 @@ Proof.
 Qed.
 
 Lemma inverse_all arms :
-  forallb arm_reversible arms = true -> filter arm_has_inverse arms = arms.
+  forallb arm_reversible arms = true -> map inverse_arm (filter arm_has_inverse arms) = arms.
 Proof.
-  intros R. apply filter_all. rewrite forallb_forall in *. intros a Ha.
-  specialize (R a Ha). unfold arm_reversible, arm_has_inverse in *.
-  destruct (a_kind a); try reflexivity; discriminate.
+  intros R. rewrite filter_all.
+  - rewrite <- (map_id arms) at 2. apply map_ext_in. intros a Ha.
+    rewrite forallb_forall in R. specialize (R a Ha). unfold arm_reversible, inverse_arm in *.
+    destruct a as [k key]. cbn in *. destruct k as [| | | | |ks|]; try reflexivity.
+    destruct ks as [t n d at' g]. cbn in *. destruct g; [discriminate|reflexivity].
+  - rewrite forallb_forall in *. intros a Ha. specialize (R a Ha).
+    unfold arm_reversible, arm_has_inverse in *. destruct (a_kind a); try reflexivity; discriminate.
 Qed.
 
 Lemma forallb_pg_sorted (f : arm -> bool) arms : forallb f (pg_sorted arms) = forallb f arms.
@@ -88,4 +109,42 @@ Proof.
   destruct (forallb arm_reversible arms) eqn:R; split; intros H; try discriminate; inversion H.
   - now rewrite (inverse_all arms R).
   - rewrite inverse_all; [reflexivity|]. now rewrite forallb_pg_sorted.
+Qed.
+
+(** the kinds of one ModifyColumn: the ChangeGenerated bit, whatever the other bits, wherever the arm stands *)
+Lemma alter_kinds_lemma pre post k col :
+  k_generated k = true ->
+  alterTable_mysql (pre ++ mkArm (KModCol k) col :: post) = None /\
+  alterTable_postgres (pre ++ mkArm (KModCol k) col :: post) = None.
+Proof.
+  intros G.
+  assert (F : forallb arm_reversible (pre ++ mkArm (KModCol k) col :: post) = false).
+  { rewrite forallb_app. cbn. unfold arm_reversible at 2. cbn. rewrite G. cbn.
+    now rewrite andb_false_r. }
+  pose proof (alter_flag_lemma (pre ++ mkArm (KModCol k) col :: post)) as [[M _] [P _]].
+  split.
+  - destruct (alterTable_mysql _); [|reflexivity]. rewrite M in F; [discriminate|discriminate].
+  - destruct (alterTable_postgres _); [|reflexivity]. rewrite P in F; [discriminate|discriminate].
+Qed.
+
+Lemma in_pg_sorted a arms : In a (pg_sorted arms) <-> In a arms.
+Proof.
+  unfold pg_sorted. rewrite in_app_iff, !filter_In. split.
+  - intros [[H _]|[H _]]; exact H.
+  - intros H. destruct (is_drop_const a) eqn:E; [left|right]; split; auto.
+Qed.
+
+(** a change with a reverse: the reverse holds every clause of the Cmd (kind and object), and no other *)
+Lemma alter_clauses_lemma arms r c :
+  alterTable_mysql arms = Some r \/ alterTable_postgres arms = Some r ->
+  (In c (flat_map arm_clauses arms) <-> In c (flat_map arm_clauses r)).
+Proof.
+  intros H. rewrite !in_flat_map.
+  destruct H as [H|H]; apply alter_complete_lemma in H; subst r.
+  - split; intros [a [Ha Hc]]; exists a; split; auto.
+    + now apply -> in_rev.
+    + now apply in_rev.
+  - split; intros [a [Ha Hc]]; exists a; split; auto.
+    + apply -> in_rev. now apply in_pg_sorted.
+    + apply in_rev in Ha. now apply in_pg_sorted.
 Qed.
